@@ -51,7 +51,12 @@ ROB(L_com, &Linear_Expression::have_a_common_variable, bool (Linear_Expression::
 static const dim_t UNUSED = (dim_t)-1;
 
 // ---- small helpers -----------------------------------------------------------------------------
-static std::string cs(cref c) { std::ostringstream o; o << c; return o.str(); }
+static std::string cs(cref c) {
+  // a corrupted row may hold garbage of millions of digits: name it instead of printing it
+  size_t digits = mpz_sizeinbase(raw_value(c).get_mpz_t(), 10);
+  if (digits > 120) return "HUGE" + std::to_string(digits);
+  std::ostringstream o; o << c; return o.str();
+}
 static std::string ls(long v) { return std::to_string(v); }
 
 struct Op {
